@@ -1,0 +1,49 @@
+//go:build verif
+
+// Verification hooks (add-only, compiled only with -tags verif). They expose
+// the unexported UDIF trailer codec to the out-of-tree correspondence harness
+// in /verif (format unit FmtXAR); no existing behaviour is changed.
+package dmg
+
+import (
+	"bytes"
+	"encoding/binary"
+)
+
+// VerifUDIF lists the named integer fields of a parsed trailer in declaration
+// order; checksum words are flattened.
+type VerifUDIF struct {
+	Fields []int64
+	Raw    []byte // binary.Write of the parsed structure
+	Hashed []byte // ForHashing()
+}
+
+// VerifParseUDIF decodes a trailer exactly as Open and Sign do.
+func VerifParseUDIF(b []byte) (*VerifUDIF, error) {
+	var rsf udifResourceFile
+	if err := binary.Read(bytes.NewReader(b), binary.BigEndian, &rsf); err != nil {
+		return nil, err
+	}
+	f := []int64{int64(rsf.Signature), int64(rsf.Version), int64(rsf.HeaderSize), int64(rsf.Flags),
+		rsf.RunningDataForkOffset, rsf.DataForkOffset, rsf.DataForkLength, rsf.ResourceForkOffset, rsf.ResourceForkLength,
+		int64(rsf.SegmentNumber), int64(rsf.SegmentCount)}
+	for _, w := range rsf.SegmentID {
+		f = append(f, int64(w))
+	}
+	f = append(f, int64(rsf.DataForkChecksum.Type), int64(rsf.DataForkChecksum.Size))
+	for _, w := range rsf.DataForkChecksum.Data {
+		f = append(f, int64(w))
+	}
+	f = append(f, rsf.XMLOffset, rsf.XMLLength, rsf.SignatureOffset, rsf.SignatureLength,
+		int64(rsf.MasterChecksum.Type), int64(rsf.MasterChecksum.Size))
+	for _, w := range rsf.MasterChecksum.Data {
+		f = append(f, int64(w))
+	}
+	f = append(f, int64(rsf.ImageVariant), rsf.SectorCount)
+	var raw bytes.Buffer
+	_ = binary.Write(&raw, binary.BigEndian, rsf)
+	return &VerifUDIF{Fields: f, Raw: raw.Bytes(), Hashed: rsf.ForHashing()}, nil
+}
+
+// VerifSigBlob returns the signature blob Open read.
+func (d *DMG) VerifSigBlob() []byte { return d.sigBlob }
